@@ -78,6 +78,9 @@ def run_case(cs):
         for i in range(rng.randint(1, 2)):
             tree[(s + "/" if s else "") + "f%d.bin" % i] = rng.randbytes(rng.randint(0, 12))
     prior = rng.choice([0, 0, 1, 2, 5])
+    if rng.random() < 0.1:
+        prior = rng.randint(32, 36)  # a long-lived history
+        cs.count("scenarios_with_32_or_more_generations")
     # build the committed state under the *work* path (so that paths are identical in every run), then move it to `state`
     world.write_tree(root, tree)
     clock.freeze(NOW - 1000)
@@ -138,6 +141,8 @@ def run_case(cs):
         if rng.random() < 0.25:
             points.append((k, "sigint", kind, path))  # interrupted by Ctrl-C at this point instead of killed
     cap = 90 if cs.tier == "quick" else 10**6
+    if prior >= 32:
+        cap = 24 if cs.tier == "quick" else 200  # every point costs a copy of the long history and five commands on it
     if len(points) > cap:
         keep = [p for p in points if p[2] != "write"]
         rest = [p for p in points if p[2] == "write"]
